@@ -25,6 +25,8 @@ pub struct WriteAheadLog {
     flush_queue: VecDeque<WalBlock>,
     file: DBFile,
     block_size: usize,
+    /// Number of data blocks (block zero excluded) already written to the file.
+    flushed_blocks: u64,
 }
 
 impl FileOperations for WriteAheadLog {
@@ -40,6 +42,7 @@ impl FileOperations for WriteAheadLog {
             flush_queue: VecDeque::new(),
             file,
             block_size,
+            flushed_blocks: 0,
         })
     }
 
@@ -61,12 +64,19 @@ impl FileOperations for WriteAheadLog {
             block_size
         };
 
+        let flushed_blocks = header_buf
+            .metadata()
+            .wal_header
+            .total_blocks
+            .saturating_sub(1);
+
         Ok(Self {
             header: header_buf,
             current_block: None, // If needed, will be allocated on push.
             flush_queue: VecDeque::new(),
             file,
             block_size,
+            flushed_blocks,
         })
     }
 
@@ -83,6 +93,7 @@ impl FileOperations for WriteAheadLog {
         self.header = BlockZero::alloc(0, self.block_size);
         self.current_block = None;
         self.flush_queue.clear();
+        self.flushed_blocks = 0;
         Ok(())
     }
 }
@@ -303,7 +314,12 @@ impl WriteAheadLog {
 
         // Try to write to block zero first
         if self.current_block.is_none() {
-            if self.header.available_space() >= record_size {
+            // Block zero may only be appended to while no later block exists,
+            // otherwise records would be read back out of order.
+            if self.flushed_blocks == 0
+                && self.flush_queue.is_empty()
+                && self.header.available_space() >= record_size
+            {
                 self.header.try_push(lsn, record)?;
                 return Ok(());
             }
@@ -356,8 +372,9 @@ impl WriteAheadLog {
 
     pub fn perform_flush(&mut self) -> io::Result<()> {
         // Block 0 always exists, additional blocks start at index 1
-        let mut block_number: u64 = 1;
-        let mut write_offset = self.block_size as u64;
+        // and blocks written by earlier flushes must not be overwritten.
+        let mut block_number: u64 = 1 + self.flushed_blocks;
+        let mut write_offset = self.block_size as u64 * block_number;
 
         // Flush queued blocks
         while let Some(block) = self.flush_queue.pop_front() {
@@ -378,6 +395,7 @@ impl WriteAheadLog {
 
         // Update header metadata
         self.header.metadata_mut().wal_header.total_blocks = block_number;
+        self.flushed_blocks = block_number - 1;
 
         if let Some(block) = self.current_block.take() {
             self.header.metadata_mut().wal_header.last_block_used =
